@@ -104,8 +104,8 @@ theorem get?_eq_none_iff {k : Nat} {m : TreeMap F} (h : Sorted m) :
 theorem get?_isSome_iff {k : Nat} {m : TreeMap F} (h : Sorted m) :
     (get? k m).isSome ↔ ∃ b ∈ m, b.1 = k := by
   rw [← not_iff_not, Bool.not_eq_true, Option.isSome_eq_false_iff, Option.isNone_iff_eq_none,
-    get?_eq_none_iff h]
-  push_neg; rfl
+    get?_eq_none_iff h, not_exists]
+  simp only [not_and]
 
 /-- keys of `insert` -/
 theorem mem_insert {k : Nat} {v : F} {m : TreeMap F} {b : Nat × F} (hb : b ∈ insert k v m) :
@@ -179,7 +179,7 @@ theorem get?_insert {k k' : Nat} {v : F} {m : TreeMap F} (h : Sorted m) :
         rw [get?_cons hs, get?_cons h, ih h.tail]
         by_cases h3 : k = k2
         · have : k ≠ k' := by omega
-          simp [h3, this]
+          simp [h3]
           intro e; omega
         · simp [h3]
 
@@ -230,7 +230,10 @@ theorem get?_ofTuples (l : List (Nat × F)) (k : Nat) :
     rw [ofTuples_append_singleton, get?_insert (sorted_ofTuples l), ih, List.reverse_append]
     simp only [List.reverse_cons, List.reverse_nil, List.nil_append, List.singleton_append,
       List.lookup_cons]
-    by_cases h1 : k = k' <;> simp [h1]
+    by_cases h1 : k = k'
+    · simp [h1]
+    · have : (k == k') = false := by simp [h1]
+      simp [h1, this]
 
 theorem mem_ofTuples {l : List (Nat × F)} {b : Nat × F} (hb : b ∈ ofTuples l) : b ∈ l := by
   induction l using List.reverseRecOn with
@@ -314,5 +317,362 @@ theorem ext_of_sorted {m₁ m₂ : TreeMap F} (h₁ : Sorted m₁) (h₂ : Sorte
       · simpa [hj] using e
 
 end TreeMap
+
+/-! ## the `eq` polynomial and `precomputeEq` -/
+
+theorem ofFn_eq_map_range {α} (n : Nat) (f : Nat → α) :
+    List.ofFn (fun i : Fin n => f i.val) = (List.range n).map f := by
+  apply List.ext_getElem
+  · simp
+  · intro i h1 h2; simp
+
+section Eq
+variable {F : Type} [CommRing F]
+
+/-- bit `i` of `b` as a ring element -/
+def bitF (b i : Nat) : F := if b.testBit i then 1 else 0
+
+/-- `eq x b = Π_{i<|x|} (x_i·b_i + (1−x_i)(1−b_i))`, `b_i = b.testBit i` -/
+def eqPoly (x : List F) (b : Nat) : F :=
+  ∏ i ∈ Finset.range x.length, (x.getD i 0 * bitF b i + (1 - x.getD i 0) * (1 - bitF b i))
+
+/-- recursive form of `eqPoly` -/
+def eqR : List F → Nat → F
+  | [], _ => 1
+  | x :: xs, b => (if b % 2 = 1 then x else 1 - x) * eqR xs (b / 2)
+
+theorem eqPoly_eq_eqR (x : List F) (b : Nat) : eqPoly x b = eqR x b := by
+  induction x generalizing b with
+  | nil => simp [eqPoly, eqR]
+  | cons x xs ih =>
+    unfold eqPoly eqR
+    rw [List.length_cons, Finset.prod_range_succ', mul_comm, ← ih (b / 2)]
+    unfold eqPoly
+    congr 1
+    · simp only [List.getD_cons_zero, bitF, Nat.testBit_zero]
+      by_cases h : b % 2 = 1 <;> simp [h]
+    · apply Finset.prod_congr rfl
+      intro i _
+      simp only [List.getD_cons_succ, bitF, Nat.testBit_succ]
+
+theorem eqR_append (x₁ x₂ : List F) (b : Nat) :
+    eqR (x₁ ++ x₂) b = eqR x₁ b * eqR x₂ (b / 2 ^ x₁.length) := by
+  induction x₁ generalizing b with
+  | nil => simp [eqR]
+  | cons x xs ih =>
+    simp only [List.cons_append, eqR, List.length_cons, ih, mul_assoc]
+    rw [Nat.pow_succ, Nat.mul_comm, Nat.div_div_eq_div_mul]
+
+theorem eqR_add_mul (x : List F) (b₁ b₂ : Nat) :
+    eqR x (b₁ + 2 ^ x.length * b₂) = eqR x b₁ := by
+  induction x generalizing b₁ b₂ with
+  | nil => simp [eqR]
+  | cons x xs ih =>
+    simp only [eqR, List.length_cons]
+    have hp : 2 ^ (xs.length + 1) * b₂ = 2 * (2 ^ xs.length * b₂) := by
+      rw [Nat.pow_succ]; ring
+    have e1 : (b₁ + 2 ^ (xs.length + 1) * b₂) % 2 = b₁ % 2 := by
+      rw [hp]; exact Nat.add_mul_mod_self_left _ _ _
+    have e2 : (b₁ + 2 ^ (xs.length + 1) * b₂) / 2 = b₁ / 2 + 2 ^ xs.length * b₂ := by
+      rw [hp]; exact Nat.add_mul_div_left _ _ (by decide)
+    simp only [e1, e2, ih]
+
+/-- batch composition: `eq (x₁++x₂) (b₁ + 2^{d₁} b₂) = eq x₁ b₁ · eq x₂ b₂` -/
+theorem eqR_append_add (x₁ x₂ : List F) (b₁ b₂ : Nat) (h : b₁ < 2 ^ x₁.length) :
+    eqR (x₁ ++ x₂) (b₁ + 2 ^ x₁.length * b₂) = eqR x₁ b₁ * eqR x₂ b₂ := by
+  rw [eqR_append, eqR_add_mul]
+  congr 2
+  rw [Nat.add_mul_div_left _ _ (Nat.two_pow_pos _), Nat.div_eq_of_lt h, Nat.zero_add]
+
+/-- the doubling step of `precompute_eq` -/
+def eqStep (dp : List F) (gi : F) : List F :=
+  let hi := dp.map (fun prev => prev * gi)
+  List.zipWith (fun prev h => prev - h) dp hi ++ hi
+
+theorem eqStep_spec (pre : List F) (gi : F) :
+    eqStep ((List.range (2 ^ pre.length)).map (eqR pre)) gi =
+      (List.range (2 ^ (pre.length + 1))).map (eqR (pre ++ [gi])) := by
+  have e : 2 ^ (pre.length + 1) = 2 ^ pre.length + 2 ^ pre.length := by rw [Nat.pow_succ]; omega
+  rw [e, List.range_add, List.map_append, eqStep]
+  congr 1
+  · rw [List.zipWith_map_right, List.zipWith_self, List.map_map]
+    apply List.map_congr_left
+    intro b hb
+    have hb' : b < 2 ^ pre.length := List.mem_range.1 hb
+    simp only [Function.comp]
+    rw [eqR_append, Nat.div_eq_of_lt hb']
+    simp [eqR]; ring
+  · simp only [List.map_map]
+    apply List.map_congr_left
+    intro b hb
+    have hb' : b < 2 ^ pre.length := List.mem_range.1 hb
+    simp only [Function.comp]
+    have := eqR_append_add pre [gi] b 1 hb'
+    rw [Nat.mul_one, Nat.add_comm] at this
+    rw [this]
+    simp [eqR]
+
+theorem eqStep_foldl (gs pre : List F) :
+    gs.foldl eqStep ((List.range (2 ^ pre.length)).map (eqR pre)) =
+      (List.range (2 ^ (pre ++ gs).length)).map (eqR (pre ++ gs)) := by
+  induction gs generalizing pre with
+  | nil => simp
+  | cons g gs ih =>
+    rw [List.foldl_cons, eqStep_spec]
+    have := ih (pre ++ [g])
+    simp only [List.length_append, List.length_cons, List.length_nil, List.append_assoc,
+      List.cons_append, List.nil_append] at this ⊢
+    exact this
+
+theorem precomputeEq_eq_range (g : List F) (hg : g ≠ []) :
+    Sparse.precomputeEq g = .ok ((List.range (2 ^ g.length)).map (eqR g)) := by
+  cases g with
+  | nil => exact absurd rfl hg
+  | cons g0 gs =>
+    unfold Sparse.precomputeEq
+    have base : [1 - g0, g0] = (List.range (2 ^ [g0].length)).map (eqR [g0]) := by
+      simp [List.range_succ, eqR]
+    have := eqStep_foldl gs [g0]
+    rw [← base] at this
+    simp only [List.cons_append, List.nil_append] at this
+    rw [← this]
+    rfl
+
+theorem precomputeEq_nil : Sparse.precomputeEq ([] : List F) = .panic := rfl
+
+end Eq
+
+/-! ## sums over a sorted map -/
+
+section Sums
+variable {F : Type} [CommRing F]
+open TreeMap
+
+theorem TreeMap.val_nil (i : Nat) : val ([] : TreeMap F) i = 0 := rfl
+
+theorem TreeMap.val_cons {k : Nat} {v : F} {m : TreeMap F} (h : Sorted ((k, v) :: m)) (i : Nat) :
+    val ((k, v) :: m) i = (if i = k then v else 0) + val m i := by
+  unfold val
+  rw [get?_cons h]
+  by_cases h1 : i = k
+  · subst h1
+    rw [get?_eq_none_of_lt (fun b hb => h.head_lt b hb)]
+    simp
+  · simp [h1]
+
+theorem TreeMap.val_eq_zero_of_not_mem {m : TreeMap F} (h : Sorted m) {i : Nat}
+    (hi : ∀ b ∈ m, b.1 ≠ i) : val m i = 0 := by
+  unfold val; rw [(get?_eq_none_iff h).2 hi]
+
+theorem sum_range_mul_split (f : Nat → F) (n m : Nat) :
+    ∑ b ∈ Finset.range (n * m), f b =
+      ∑ b₂ ∈ Finset.range m, ∑ b₁ ∈ Finset.range n, f (b₁ + n * b₂) := by
+  induction m with
+  | zero => simp
+  | succ m ih =>
+    rw [Nat.mul_succ, Finset.sum_range_add, ih, Finset.sum_range_succ]
+    congr 1
+    apply Finset.sum_congr rfl
+    intro x _
+    rw [Nat.add_comm]
+
+/-- a windowed sum of `val m` is a sum over the stored pairs -/
+theorem sum_val_window {m : TreeMap F} (hm : Sorted m) (h : Nat → F) (off n : Nat) :
+    ∑ b ∈ Finset.range n, val m (b + off) * h b =
+      (m.map (fun iv => if off ≤ iv.1 ∧ iv.1 < off + n then iv.2 * h (iv.1 - off) else 0)).sum := by
+  induction m with
+  | nil => simp [TreeMap.val_nil]
+  | cons a m ih =>
+    obtain ⟨k, v⟩ := a
+    rw [List.map_cons, List.sum_cons, ← ih hm.tail]
+    simp only [TreeMap.val_cons hm, add_mul, Finset.sum_add_distrib]
+    congr 1
+    by_cases hk : off ≤ k ∧ k < off + n
+    · rw [if_pos hk]
+      have : ∀ b, (b + off = k) ↔ (b = k - off) := by intro b; omega
+      simp only [this, ite_mul, zero_mul]
+      rw [Finset.sum_ite_eq', if_pos (Finset.mem_range.2 (by omega))]
+    · rw [if_neg hk]
+      apply Finset.sum_eq_zero
+      intro b hb
+      have := Finset.mem_range.1 hb
+      rw [if_neg (by omega), zero_mul]
+
+end Sums
+
+/-! ## `Sparse.fixVariables` -/
+
+section Fix
+variable {F : Type} [CommRing F]
+open TreeMap
+
+theorem get?_eq_of_val_isSome {m₁ m₂ : TreeMap F} {j : Nat}
+    (hv : val m₁ j = val m₂ j) (hs : (get? j m₁).isSome ↔ (get? j m₂).isSome) :
+    get? j m₁ = get? j m₂ := by
+  unfold val at hv
+  cases h1 : get? j m₁ <;> cases h2 : get? j m₂ <;> simp_all
+
+theorem isSome_get?_accumulate {k k' : Nat} {x : F} {m : TreeMap F} (h : Sorted m) :
+    (get? k (accumulate m k' x)).isSome ↔ (k = k' ∨ (get? k m).isSome) := by
+  rw [get?_accumulate h]
+  by_cases h1 : k = k' <;> simp [h1]
+
+/-- one batch: never panics when the weight table has length `2^dim` -/
+theorem foldBatch_spec (pre : List F) (dim : Nat) (hpre : pre.length = 2 ^ dim)
+    (l : List (Nat × F)) (r : TreeMap F) (hr : Sorted r) :
+    ∃ r', Sparse.foldBatch pre dim l r = .ok r' ∧ Sorted r' ∧
+      (∀ j, val r' j = val r j +
+        (l.map (fun iv => if iv.1 / 2 ^ dim = j then iv.2 * pre.getD (iv.1 % 2 ^ dim) 0 else 0)).sum) ∧
+      (∀ j, (get? j r').isSome ↔ ((get? j r).isSome ∨ ∃ iv ∈ l, iv.1 / 2 ^ dim = j)) := by
+  induction l generalizing r with
+  | nil => exact ⟨r, rfl, hr, by simp, by simp⟩
+  | cons a l ih =>
+    obtain ⟨i, v⟩ := a
+    have hlt : i % 2 ^ dim < pre.length := by rw [hpre]; exact Nat.mod_lt _ (Nat.two_pow_pos _)
+    have hidx : pre[i &&& ((1 <<< dim) - 1)]? = some (pre.getD (i % 2 ^ dim) 0) := by
+      rw [Nat.one_shiftLeft, Nat.and_two_pow_sub_one_eq_mod, List.getD_eq_getElem?_getD,
+        List.getElem?_eq_getElem hlt]
+      rfl
+    obtain ⟨r', e, hs, hv, hk⟩ := ih (accumulate r (i >>> dim) (pre.getD (i % 2 ^ dim) 0 * v))
+      (sorted_accumulate hr)
+    refine ⟨r', ?_, hs, ?_, ?_⟩
+    · simp only [Sparse.foldBatch, hidx, ofOption, ok_bind]
+      exact e
+    · intro j
+      rw [hv j, val_accumulate hr, Nat.shiftRight_eq_div_pow, List.map_cons, List.sum_cons]
+      by_cases hj : i / 2 ^ dim = j
+      · subst hj; simp; ring
+      · rw [if_neg (fun e => hj e.symm)]; simp [hj]
+    · intro j
+      rw [hk j, isSome_get?_accumulate hr, Nat.shiftRight_eq_div_pow]
+      simp only [List.mem_cons, exists_eq_or_imp]
+      constructor
+      · rintro ((e | e) | e)
+        · exact Or.inr (Or.inl e.symm)
+        · exact Or.inl e
+        · exact Or.inr (Or.inr e)
+      · rintro (e | e | e)
+        · exact Or.inl (Or.inr e)
+        · exact Or.inl (Or.inl e.symm)
+        · exact Or.inr e
+
+/-- one batch started from the empty map, as a hypercube sum -/
+theorem foldBatch_empty (focus : List F) (m : TreeMap F) (hm : Sorted m) :
+    ∃ r', Sparse.foldBatch ((List.range (2 ^ focus.length)).map (eqR focus)) focus.length m [] = .ok r' ∧
+      Sorted r' ∧
+      (∀ j, val r' j = ∑ b ∈ Finset.range (2 ^ focus.length),
+          val m (b + j * 2 ^ focus.length) * eqR focus b) ∧
+      (∀ j, (get? j r').isSome ↔ ∃ iv ∈ m, iv.1 / 2 ^ focus.length = j) := by
+  obtain ⟨r', e, hs, hv, hk⟩ := foldBatch_spec ((List.range (2 ^ focus.length)).map (eqR focus))
+    focus.length (by simp) m [] sorted_nil
+  refine ⟨r', e, hs, ?_, ?_⟩
+  · intro j
+    rw [hv j, sum_val_window hm, TreeMap.val_nil, zero_add]
+    congr 1
+    apply List.map_congr_left
+    intro iv _
+    have hp : 0 < 2 ^ focus.length := Nat.two_pow_pos _
+    have hiff : (j * 2 ^ focus.length ≤ iv.1 ∧ iv.1 < j * 2 ^ focus.length + 2 ^ focus.length) ↔
+        iv.1 / 2 ^ focus.length = j := by
+      rw [Nat.div_eq_iff hp]
+      constructor
+      · rintro ⟨h1, h2⟩; exact ⟨h1, by omega⟩
+      · rintro ⟨h1, h2⟩; exact ⟨h1, by omega⟩
+    by_cases hj : iv.1 / 2 ^ focus.length = j
+    · rw [if_pos hj, if_pos (hiff.2 hj)]
+      have hlt : iv.1 % 2 ^ focus.length < 2 ^ focus.length := Nat.mod_lt _ hp
+      have : iv.1 - j * 2 ^ focus.length = iv.1 % 2 ^ focus.length := by
+        rw [← hj, Nat.mod_def, Nat.mul_comm]
+      rw [this, List.getD_eq_getElem?_getD, List.getElem?_map, List.getElem?_range hlt]
+      rfl
+    · rw [if_neg hj, if_neg (fun h => hj (hiff.1 h))]
+  · intro j
+    rw [hk j]; simp [get?]
+
+theorem fixLoop_spec (w : Nat) (hw : 1 ≤ w) (fuel : Nat) (pt : List F) (m : TreeMap F)
+    (hf : pt.length ≤ fuel) (hm : Sorted m) :
+    ∃ r, Sparse.fixLoop w fuel pt m = .ok r ∧ Sorted r ∧
+      (∀ j, val r j = ∑ b ∈ Finset.range (2 ^ pt.length),
+          val m (b + j * 2 ^ pt.length) * eqR pt b) ∧
+      (∀ j, (get? j r).isSome ↔ ∃ iv ∈ m, iv.1 / 2 ^ pt.length = j) := by
+  induction fuel generalizing pt m with
+  | zero =>
+    have : pt = [] := List.length_eq_zero_iff.1 (by omega)
+    subst this
+    refine ⟨m, rfl, hm, ?_, ?_⟩
+    · intro j; simp [eqR]
+    · intro j; simp [get?_isSome_iff hm]
+  | succ fuel ih =>
+    by_cases hpt : pt = []
+    · subst hpt
+      refine ⟨m, rfl, hm, ?_, ?_⟩
+      · intro j; simp [eqR]
+      · intro j; simp [get?_isSome_iff hm]
+    · have hlen : 0 < pt.length := List.length_pos_iff.2 hpt
+      -- the batch
+      set fl := if pt.length > w then w else pt.length with hfl
+      have hfl1 : 1 ≤ fl := by rw [hfl]; split <;> omega
+      have hfl2 : fl ≤ pt.length := by rw [hfl]; split <;> omega
+      have hflen : (pt.take fl).length = fl := by rw [List.length_take]; omega
+      have hne : pt.take fl ≠ [] := by
+        intro e; rw [e] at hflen; simp at hflen; omega
+      obtain ⟨r₁, e₁, hs₁, hv₁, hk₁⟩ := foldBatch_empty (pt.take fl) m hm
+      have hdl : (pt.drop fl).length ≤ fuel := by rw [List.length_drop]; omega
+      obtain ⟨r, e, hs, hv, hk⟩ := ih (pt.drop fl) r₁ hdl hs₁
+      refine ⟨r, ?_, hs, ?_, ?_⟩
+      · unfold Sparse.fixLoop
+        have : pt.isEmpty = false := by cases pt <;> simp_all
+        simp only [this, Bool.false_eq_true, if_false, ← hfl, precomputeEq_eq_range _ hne, ok_bind,
+          e₁]
+        exact e
+      · intro j
+        rw [hv j]
+        simp only [hv₁]
+        have hsplit : pt = pt.take fl ++ pt.drop fl := (List.take_append_drop fl pt).symm
+        have hl : pt.length = (pt.take fl).length + (pt.drop fl).length := by
+          rw [← List.length_append, ← hsplit]
+        generalize pt.take fl = x₁ at *
+        generalize pt.drop fl = x₂ at *
+        subst hsplit
+        rw [hl, Nat.pow_add, sum_range_mul_split]
+        apply Finset.sum_congr rfl
+        intro b₂ _
+        rw [Finset.sum_mul]
+        apply Finset.sum_congr rfl
+        intro b₁ hb₁
+        rw [eqR_append_add _ _ _ _ (Finset.mem_range.1 hb₁), mul_assoc]
+        congr 2
+        ring
+      · intro j
+        rw [hk j]
+        have hl : pt.length = (pt.take fl).length + (pt.drop fl).length := by
+          rw [← List.length_append, List.take_append_drop]
+        constructor
+        · rintro ⟨iv, hiv, e⟩
+          have := (get?_isSome_iff hs₁).2 ⟨iv, hiv, rfl⟩
+          obtain ⟨iv', hiv', e'⟩ := (hk₁ iv.1).1 this
+          refine ⟨iv', hiv', ?_⟩
+          rw [hl, Nat.pow_add, ← Nat.div_div_eq_div_mul, e', e]
+        · rintro ⟨iv, hiv, e⟩
+          have := (hk₁ (iv.1 / 2 ^ (pt.take fl).length)).2 ⟨iv, hiv, rfl⟩
+          obtain ⟨b, hb, e'⟩ := (get?_isSome_iff hs₁).1 this
+          refine ⟨b, hb, ?_⟩
+          rw [e', Nat.div_div_eq_div_mul, ← Nat.pow_add, ← hl, e]
+
+/-- the result of the batch loop does not depend on the window size (nor on spare fuel) -/
+theorem fixLoop_window_indep (w₁ w₂ : Nat) (hw₁ : 1 ≤ w₁) (hw₂ : 1 ≤ w₂) (f₁ f₂ : Nat)
+    (pt : List F) (m : TreeMap F) (hf₁ : pt.length ≤ f₁) (hf₂ : pt.length ≤ f₂) (hm : Sorted m) :
+    Sparse.fixLoop w₁ f₁ pt m = Sparse.fixLoop w₂ f₂ pt m := by
+  obtain ⟨r₁, e₁, hs₁, hv₁, hk₁⟩ := fixLoop_spec w₁ hw₁ f₁ pt m hf₁ hm
+  obtain ⟨r₂, e₂, hs₂, hv₂, hk₂⟩ := fixLoop_spec w₂ hw₂ f₂ pt m hf₂ hm
+  rw [e₁, e₂]
+  congr 1
+  apply ext_of_sorted hs₁ hs₂
+  intro j
+  apply get?_eq_of_val_isSome
+  · rw [hv₁, hv₂]
+  · rw [hk₁, hk₂]
+
+end Fix
 
 end Ark.Mle
